@@ -15,6 +15,7 @@ definition, class-level fields read as bare names in methods, reassignment of a 
 -/
 import MambaVerif.Lemmas.ScopeSound
 import MambaVerif.Lemmas.CtorAssign
+import MambaVerif.Lemmas.CtorComplete
 
 namespace MV.C09
 
@@ -106,5 +107,37 @@ example : ctorAccepts [0] [.loop [.assign 0]] = false ∧ (runB [.loop [.assign 
     ∧ ctorAccepts [0] [.handle [[.assign 0]]] = false ∧ (runB [.handle [[.assign 0]]] [0] []).2.1 = []
     ∧ ctorAccepts [0] [.ifOnly [.ret], .assign 0] = false ∧ (runB [.ifOnly [.ret], .assign 0] [1] []).2.1 = [] := by
   decide
+
+open MV in
+/-- **constructor_rejection_is_justified**: a constructor body without `return` is rejected only if some
+    path through it really leaves an attribute unassigned (the analysis does not over-reject) -/
+theorem constructor_rejection_is_justified (fields : List Nat) (body : List CS) (hrf : retFreeB body = true)
+    (h : ctorAccepts fields body = false) :
+    ∃ choices, ∃ f ∈ fields, f ∉ (runB body choices []).2.1 := by
+  obtain ⟨u', hu⟩ := uaB_some body fields hrf
+  unfold ctorAccepts at h
+  simp only [hu] at h
+  cases u' with
+  | nil => simp at h
+  | cons x rest =>
+    have hx : x ∈ x :: rest := by simp
+    obtain ⟨p, hp⟩ := pathB body fields (x :: rest) x hrf hu hx
+    refine ⟨p, x, uaB_sub body fields (x :: rest) hu x hx, ?_⟩
+    have := (hp [] []).2.2 (by simp)
+    simpa using this
+
+open MV in
+/-- **constructor_analysis_exact**: for bodies without `return`, acceptance is exactly "every path assigns
+    to every attribute" -/
+theorem constructor_analysis_exact (fields : List Nat) (body : List CS) (hrf : retFreeB body = true) :
+    ctorAccepts fields body = true ↔ ∀ choices, ∀ f ∈ fields, f ∈ (runB body choices []).2.1 := by
+  constructor
+  · intro h choices; exact constructor_assigns_every_attribute fields body h choices
+  · intro hall
+    cases hacc : ctorAccepts fields body with
+    | true => rfl
+    | false =>
+      obtain ⟨choices, f, hf, hnot⟩ := constructor_rejection_is_justified fields body hrf hacc
+      exact absurd (hall choices f hf) hnot
 
 end MV.C09
